@@ -480,7 +480,7 @@ theorem start_runP (fl : Flavor) (m : Machine) (u : UEnv) (hwf : WF m.root) (hi 
     show (asyncStart m u {}).err ≠ none ∨ RunP m (asyncStart m u {})
     have hP0 := runInv_of_hooks _ (hooksAsyncStart_ok u m) (hooksAsyncStart_traceOK u m) .async m u hwf hi hsel hd
     have hP := runInv_of_hooks _ (hooksAsync_ok u m) (hooksAsync_traceOK u m) .async m u hwf hi hsel hd
-    unfold asyncStart
+    rw [asyncStart_unfold]
     simp only [he]
     generalize hs1 : (startEntries m).1.foldl
       (enterOne (hooksAsyncStart u m) .async m (some "___xstate_statemachine_init___"))
@@ -603,20 +603,26 @@ theorem syncSend_histQ (hQ : RecClosed m Q) (u : UEnv) (e : Ev) (s : St) (hs : Q
   · exact drainLoop_histQ hQ u _ _ hs
   · exact hs
 
-theorem asyncStep_histQ (hQ : RecClosed m Q) (u : UEnv) (e : Ev) (s : St) (hs : Q s.hist) :
-    Q (asyncStep m u e s).hist := by
+theorem asyncProcess_histQ (hQ : RecClosed m Q) (u : UEnv) (e : Ev) (s : St) (hs : Q s.hist) :
+    Q (asyncProcess m u e s).hist := by
+  unfold asyncProcess
+  have h1 : Q (emit ("#recv:" ++ e.type) s).hist := hs
+  have h2 := processEvent_histQ hQ (hooksAsync u m) (hooksAsync_traceOK u m) .async u e _ h1
+  have h3 := transientLoop_histQ hQ (hooksAsync u m) (hooksAsync_traceOK u m) .async u m.maxIterations _ h2
+  simp only
+  unfold asyncChainEnd
+  split
+  · split <;> exact h3
+  · split <;> exact h3
+
+theorem asyncStep_histQ (hQ : RecClosed m Q) (u : UEnv) (q : QEv) (s : St) (hs : Q s.hist) :
+    Q (asyncStep m u q s).hist := by
   unfold asyncStep
   split
-  · exact hs
-  · have h1 : Q (emit ("#recv:" ++ e.type) s).hist := hs
-    have h2 := processEvent_histQ hQ (hooksAsync u m) (hooksAsync_traceOK u m) .async u e _ h1
-    have h3 := transientLoop_histQ hQ (hooksAsync u m) (hooksAsync_traceOK u m) .async u m.maxIterations _ h2
-    simp only
-    split
-    · exact h3
-    · split
-      · exact h3
-      · exact h3
+  · split
+    · exact hs
+    · exact asyncProcess_histQ hQ u q.ev (asyncPurge s) hs
+  · exact asyncProcess_histQ hQ u q.ev s hs
 
 theorem asyncDrain_histQ (hQ : RecClosed m Q) (u : UEnv) :
     ∀ (fuel : Nat) (s : St), Q s.hist → Q (asyncDrain m u fuel s).hist := by
@@ -688,7 +694,7 @@ theorem start_histQ (hQ : RecClosed m Q) (fl : Flavor) (u : UEnv) (s : St) (hs :
     have h1 : Q ((startEntries m).1.foldl (enterOne (hooksAsyncStart u m) .async m (some "___xstate_statemachine_init___"))
         { s with status := "running", ctx := m.ctx0 }).hist := by
       rw [enterFold_hist _ (hooksAsyncStart_traceOK u m)]; exact hs
-    unfold asyncStart
+    rw [asyncStart_unfold]
     simp only
     cases (startEntries m).2 with
     | none => exact asyncTail_histQ hQ u _ h1
